@@ -60,7 +60,9 @@ RULE = ("seeded generator; each case is one instance of one law {sym, perm(zero)
         "value, T partly a lifetime-sized jitter of S; tiny: uniform diagrams at scale 1e-8/1e-9/1e-10/2^-30} for "
         "every law and for bruteW, translations up to 1e6 and rescalings down to 2^-30; container forms {list, "
         "tuples, Fortran, strided, negative stride, read-only, extra column(s), float32, int64, int32, uint16 (the "
-        "integer / float32 forms on grids exact in that type)} for every law and for bruteB/bruteW; call histories "
+        "integer / float32 forms on grids exact in that type; on the integer grid T is mostly S with every coordinate "
+        "moved by -1/0/1)} for every law and for bruteB/bruteW; inside a case equal-valued arguments are one object; "
+        "call histories "
         "{pairwise, sweep, fault} of 5-6 such cases on shared array objects; a case is non-trivial when the "
         "relation passes and its reference value is non-zero (perm: the diagram has >= 2 distinct points; "
         "brute: both diagrams non-empty or a positive value; history: >= 2 non-trivial steps); "
@@ -145,9 +147,19 @@ LATE = {"late5e2": (5e2, 1e-3, 4e-3), "late1e3": (1e3, 1e-3, 9e-3), "late1e5": (
 TINY = {"tiny1e-8": 1e-8, "tiny1e-9": 1e-9, "tiny1e-10": 1e-10, "tiny2^-30": 2.0 ** -30}
 MAGS = ["late5e2", "late1e3", "late1e3", "late1e5", "late1e6", "tiny1e-8", "tiny1e-9", "tiny1e-10", "tiny2^-30"]
 # container forms (see _args); the last four only on grids that are exact in the type
-FORMS = ["list", "tuples", "F", "strided", "revstride", "ro", "extra", "extra", "extra2", "f32", "i64", "i32", "u16"]
+FORMS = ["list", "tuples", "F", "strided", "revstride", "ro", "extra", "extra", "extra2", "f32", "i64", "i32", "u16", "u16"]
 FORMS_ANY = FORMS[:9]
 INT_FORMS = ("i64", "i32", "u16")
+
+
+def _ijitter(rng, S):
+    """S with every coordinate moved by -1, 0 or 1 (integers stay integers, non-negative, on or above the diagonal)."""
+    T = []
+    for b, d in S:
+        nb = max(0.0, b + rng.randint(-1, 1))
+        T.append([nb, max(nb, d + rng.randint(-1, 1))])
+    rng.shuffle(T)
+    return T
 
 
 def _jitter(rng, S, amp):
@@ -206,6 +218,8 @@ def _mono_case(rng, law, dist, nS, nT, nB=None, fam=None, form=None):
     if form:
         c["form"] = form
         c["cls"] += "/form"
+    if fam == "integer" and rng.random() < 0.6:
+        c["T"] = _ijitter(rng, c["S"])   # the optimal matching pairs the points, every difference is -1, 0 or 1
     if fam in LATE or fam in TINY:
         c["cls"] += "/mag"
         if rng.random() < 0.5:
@@ -252,13 +266,14 @@ def _mono_case(rng, law, dist, nS, nT, nB=None, fam=None, form=None):
 def _brute_case(rng, dist, form=None, fams=None):
     nS, nT = rng.randint(0, 3), rng.randint(0, 3)
     if dist == "B":
-        S, T = _dgm(rng, nS, "dyadic"), _dgm(rng, nT, "dyadic")
+        grid = "integer" if form in INT_FORMS else "dyadic"
+        S, T = _dgm(rng, nS, grid), _dgm(rng, nT, grid)
         if rng.random() < 0.45 and S and T:
             T[0] = list(S[0])
             if rng.random() < 0.5 and len(S) >= 2 and len(T) >= 2:
                 # a chain through the shared point: a -> m (shared) -> c, one grid step each
                 m = S[0]
-                st = rng.choice([0.25, 0.5, 1.0])
+                st = rng.choice([0.25, 0.5, 1.0]) if grid == "dyadic" else 1.0
                 S[1] = [m[0] - st, m[1] - st]
                 T[1] = [m[0] + st, m[1] + st]
         if rng.random() < 0.2 and S:
@@ -266,7 +281,9 @@ def _brute_case(rng, dist, form=None, fams=None):
         if rng.random() < 0.25 and len(S) >= 2:
             S = _repair(rng, S)
             T = _repair(rng, S)
-        s = rng.choice([0, 0, 0, 3, -3])
+        if grid == "integer" and S and rng.random() < 0.6:
+            T = _ijitter(rng, S)
+        s = 0 if form in INT_FORMS else rng.choice([0, 0, 0, 3, -3])
         S = [[b * 2.0 ** s, d * 2.0 ** s] for b, d in S]
         T = [[b * 2.0 ** s, d * 2.0 ** s] for b, d in T]
     else:
@@ -382,15 +399,16 @@ def generate(rng, tier):
                     continue
                 n = rng.choice(small)
                 cases.append(_mono_case(rng, law, dist, n, max(1, n + rng.randint(-n // 3, n // 3)), fam=rng.choice(MAGS)))
-                n = rng.choice(small)
-                cases.append(_mono_case(rng, law, dist, n, max(1, n + rng.randint(-n // 3, n // 3)), form=rng.choice(FORMS)))
+                for _ in range(2):
+                    n = rng.choice(small)
+                    cases.append(_mono_case(rng, law, dist, n, max(1, n + rng.randint(-n // 3, n // 3)), form=rng.choice(FORMS)))
     # the closed forms against the empty diagram and B <= W at every magnitude, at a size of a hundred or two
     for fam in (MAGS if tier != "quick" else rng.sample(MAGS, 3)):
         n = rng.choice([90, 130, 200])
         cases.append(_mono_case(rng, "empty", "W", n, 0, fam=fam))
         cases.append(_mono_case(rng, "BleW", "B", n // 3, n // 3 - 3, fam=fam))
     for _ in range(60 if tier == "quick" else 500):
-        cases.append(_brute_case(rng, "B", form=rng.choice(FORMS_ANY + ["f32"])))
+        cases.append(_brute_case(rng, "B", form=rng.choice(FORMS)))
     for _ in range(12 if tier == "quick" else 120):
         cases.append(_brute_case(rng, "W", fams=MAGS, form=rng.choice([None] + FORMS_ANY)))
     return cases + _histories(rng, 8 if tier == "quick" else 100)
